@@ -40,7 +40,7 @@ TIERS = {
     "thorough": {"shards": 16, "cases": 30000, "timeout": 3000},
 }
 FLOORS = {
-    "quick": {"counts": {"words_checked": 60000, "lines_checked": 30000, "end_to_end_checks": 20000,
+    "quick": {"counts": {"words_checked": 60000, "relative_moves_right_after_context_exit": 80, "lines_checked": 30000, "end_to_end_checks": 20000,
                          "coupled_axis_lines": 5000, "relative_lines": 8000}, "keys": 300},
     "thorough": {"counts": {"words_checked": 2500000, "lines_checked": 1000000}, "keys": 600},
 }
